@@ -173,6 +173,9 @@ func hGenRequirement(name string, shapes, nest, malformed int) *SubmissionRequir
 	return r
 }
 
+// hAllInGroupA: every descriptor is a member of group A only (no choice).
+var hAllInGroupA bool
+
 func hHasGroup(d *InputDescriptor, g string) bool {
 	for _, x := range d.Group {
 		if x == g {
@@ -188,7 +191,9 @@ func hGenDefinition(nd int, withReqs bool, reqs, shapes, nest, malformed int) Pr
 	def := PresentationDefinition{Id: "def"}
 	for j := 0; j < nd; j++ {
 		d := &InputDescriptor{Id: hDescIDs[j], Constraints: &Constraints{}}
-		if withReqs {
+		if withReqs && hAllInGroupA {
+			d.Group = []string{"A"}
+		} else if withReqs {
 			vTag("groups_" + d.Id)
 			switch vChoice(4) {
 			case 0:
